@@ -92,7 +92,7 @@ NOT_YET = {
 
 
 def main():
-    hooks_commits = ["a3437f0"]
+    hooks_commits = ["a3437f0", "da708a5"]
     m = {
         "version": 1,
         "setup_cmd": "./check setup",
